@@ -1,0 +1,18 @@
+//go:build verif
+
+package logger
+
+// Contracts for the log-level switches (property C19), checked by /verif/bin/govc; comment-only.
+
+//@ func IsDebugOpen
+//@   props C19
+//@   assigns nothing
+//@   ensures level: result == (ConsoleLevel >= DebugLevel)
+//@ func OpenDebug
+//@   props C19
+//@   assigns ConsoleLevel
+//@   ensures on: ConsoleLevel >= DebugLevel
+//@ func CloseDebug
+//@   props C19
+//@   assigns ConsoleLevel
+//@   ensures off: ConsoleLevel < DebugLevel
